@@ -200,6 +200,14 @@ func genChunks(r *PRNG, n int) []Chunk {
 		}
 		out = append(out, c)
 		rem -= sz
+		if r.Chance(1, 12) {
+			// a compression setting changed while the message is open: it governs subsequent messages only
+			if r.Bool() {
+				out = append(out, Chunk{How: r.PickS([]string{"e+", "e-"})})
+			} else {
+				out = append(out, Chunk{How: "l", N: r.Range(-2, 9)})
+			}
+		}
 	}
 	if rem > 0 {
 		out = append(out, Chunk{How: "w", N: rem})
